@@ -26,6 +26,7 @@ var (
 	ErrHeaderDataNotFound = errors.New("Header Data Not Found")
 	ErrWrongPreviousHash  = errors.New("Wrong Previous Hash")
 	ErrNotAncestor        = errors.New("Branch Not Ancestor")
+	ErrBranchContained    = errors.New("Branch Contained")
 )
 
 type Branch struct {
@@ -475,10 +476,25 @@ func (b *Branch) Connect(ctx context.Context, store storage.Storage,
 		return nil, errors.Wrap(err, "reload")
 	}
 
+	// Skip the headers that are already contained in one of the branches. When the longest branch
+	// was consolidated through this branch the first part of this branch is now in the main
+	// branch.
+	start := 0
+	for start < len(b.headers) {
+		if _, height := branches.Find(b.headers[start].Hash); height == -1 {
+			break
+		}
+		start++
+	}
+	if start == len(b.headers) {
+		return nil, ErrBranchContained
+	}
+	firstHeader := b.headers[start].Header
+
 	var parent *Branch
 	var parentHeight int
 	for _, branch := range branches {
-		parentHeight = branch.Find(b.firstHeader.PrevBlock)
+		parentHeight = branch.Find(firstHeader.PrevBlock)
 		if parentHeight != -1 {
 			parent = branch
 			break
@@ -489,15 +505,14 @@ func (b *Branch) Connect(ctx context.Context, store storage.Storage,
 		return nil, ErrNotAncestor
 	}
 
-	result, err := NewBranch(parent, parentHeight, b.firstHeader)
+	result, err := NewBranch(parent, parentHeight, firstHeader)
 	if err != nil {
 		return nil, errors.Wrap(err, "new branch")
 	}
 
 	// Add headers after branch
-	height := parentHeight + 1
-	startOffset := height - b.PrunedLowestHeight() + 1
-	for _, header := range b.headers[startOffset:] {
+	height := parentHeight + 2
+	for _, header := range b.headers[start+1:] {
 		result.add(header, height)
 		height++
 	}
